@@ -407,7 +407,7 @@ pub fn run(ctx: &Ctx) -> Report {
             }
         };
         let roots: Vec<St> = named.iter().map(|x| x.1.clone()).collect();
-        let lim = Limits { max_depth: ctx.pick(4, 6), budget_s: share.min(ctx.left().max(1.0)), max_states: 30_000_000 };
+        let lim = Limits { max_depth: ctx.depth(4, 6), budget_s: share.min(ctx.left().max(1.0)), max_states: 30_000_000 };
         let (stats, found) = explore::explore(&m, &roots, &lim);
         if let Some(f) = found {
             r.violation(
